@@ -5,7 +5,7 @@ for a built-in or user markup snippet; snippet resolution that does not return w
 logical step budget or nests deeper than the number of snippets."""
 import re
 
-from .. import core, probes
+from .. import core, outparse, probes
 
 ID = 'C14'
 RULE = ('metamorphic pairs on the real code: every built-in markup snippet of html / xsl / pug x 7 syntaxes x suffix forms (none, .c[x=1], {t}, *2, /, >b, '
@@ -75,6 +75,23 @@ def pairs_for(key, defn):
             yield ('child', key + '>x-b', defn + '>x-b')
 
 
+def loose_stream(out):
+    res = []
+    for t in outparse.tag_stream(out):
+        if t[0] == 'open':
+            attrs = []
+            for n, v in t[2]:
+                if n.lower() in ('class', 'classname') and v:
+                    v = v[0] + ' '.join(sorted(v[1:-1].split())) + v[-1]
+                attrs.append((n, v))
+            res.append(('open', t[1], sorted(attrs, key=repr), t[3]))
+        elif t[0] == 'text':
+            res.append(('text', ' '.join(t[1].split())))
+        else:
+            res.append(t)
+    return repr(res)
+
+
 class Mon:
     def __init__(self, ctx):
         import emmet
@@ -93,6 +110,12 @@ class Mon:
         if rd[0] == 'exc':
             ctx.mon('workload:definition-splice-does-not-parse')
             return
+        if (cfg.get('options') or {}).get('output.reverseAttributes') and ra[0] == 'ok':
+            # reverse mode puts the alias attributes first by design: compare modulo attribute and class-token order
+            try:
+                a, d = loose_stream(a), loose_stream(d)
+            except outparse.OutParseError:
+                pass        # doctype / processing-instruction text: fall back to the exact comparison
         if a != d:
             ctx.violation('alias-differs-from-definition', case, {'alias_output': a[:300], 'definition_output': d[:300]})
             return
@@ -184,6 +207,9 @@ def run_shard(desc, ctx):
             for key, defn in sorted(table.items()):
                 for label, a, d in pairs_for(key, defn):
                     mon.pair(label, a, d, {'syntax': syntax}, 'builtin-pair', 'oracle:alias-equals-definition')
+                    if label in ('attrs', 'inside', 'plain') and syntax in ('html', 'xsl'):
+                        mon.pair(label + ':reverse', a, d, {'syntax': syntax, 'options': {'output.format': False, 'output.reverseAttributes': True}},
+                                 'builtin-pair', 'oracle:alias-equals-definition')
                     if label in ('attrs', 'child') and syntax == 'html':
                         mon.pair(label + ':noformat', a, d, {'syntax': syntax, 'options': {'output.format': False, 'output.reverseAttributes': False}},
                                  'builtin-pair', 'oracle:alias-equals-definition')
@@ -191,6 +217,9 @@ def run_shard(desc, ctx):
             for syntax in SYNTAXES:
                 for a, d in MULTI_PAIRS:
                     mon.pair('multi-top', a, d, {'syntax': syntax, 'snippets': dict(MULTI)}, 'multi-top-pair', 'oracle:multi-top')
+                    if syntax in ('html', 'jsx', 'xml'):
+                        mon.pair('multi-top:reverse', a, d, {'syntax': syntax, 'snippets': dict(MULTI), 'options': {'output.reverseAttributes': True, 'output.format': False}},
+                                 'multi-top-pair', 'oracle:multi-top')
         else:
             rng = ctx.rng
             for _ in range(desc['n']):
